@@ -138,6 +138,7 @@ func (r *recorder) Abort(ctx context.Context, mod api.Module, def api.FunctionDe
 
 // Case is the replayable form.
 type Case struct {
+	Lib    *wasmgen.Module `json:"lib,omitempty"` // second module ("lib") whose exports Module imports (wasm-to-wasm calls)
 	Module *wasmgen.Module `json:"module"`
 	Script []runner.Call   `json:"script"`
 	Fuel   int32           `json:"fuel"`
@@ -146,9 +147,9 @@ type Case struct {
 
 type runResult struct {
 	tr     runner.Trace
-	perCal [][]Event // events per script step (index 0 = instantiation)
-	enter  [][]uint32
-	hostlg [][]string
+	perCal [][]Event  // events per script step (index 0 = instantiation)
+	enter  [][]string // cumulative global enter() reports "<module>.<index>"
+	hostlg [][]string // cumulative global host-call log
 }
 
 func run(engine string, c *Case, listen bool) runResult {
@@ -160,6 +161,13 @@ func run(engine string, c *Case, listen bool) runResult {
 		for _, f := range c.Subset {
 			rec.subset[fmt.Sprintf(".%d", f)] = true
 		}
+		if c.Lib != nil {
+			for _, f := range c.Lib.Funcs {
+				if !f.Imported {
+					rec.subset[fmt.Sprintf("lib.%d", f.Index)] = true
+				}
+			}
+		}
 	}
 	lctx := ctx
 	if listen {
@@ -167,27 +175,45 @@ func run(engine string, c *Case, listen bool) runResult {
 	}
 	rt := wazero.NewRuntimeWithConfig(lctx, wz.Config(engine))
 	defer rt.Close(ctx)
+	gl := &runner.GlobalLog{}
+	var inLib *runner.Inst
+	if c.Lib != nil {
+		sl, err := runner.NewSession(lctx, rt, c.Lib)
+		if err != nil {
+			res.tr.Inst = wz.Outcome{Kind: wz.KOther, Detail: "compile lib: " + err.Error()}
+			return res
+		}
+		sl.Host.MaxLog, sl.Host.Global = 0, gl
+		inLib = sl.InstantiateNamed(lctx, nil, "lib")
+		if inLib.Mod == nil {
+			// the library's start function failed: nothing to link against
+			res.tr.Inst = wz.Outcome{Kind: "lib-failed", Detail: inLib.Tr.Inst.String()}
+			res.perCal = append(res.perCal, nil)
+			res.enter = append(res.enter, nil)
+			res.hostlg = append(res.hostlg, nil)
+			return res
+		}
+		rec.ev = nil // events of the library's own instantiation are not part of the case
+		gl.Entered, gl.Calls = nil, nil
+	}
 	s, err := runner.NewSession(lctx, rt, c.Module)
 	if err != nil {
 		res.tr.Inst = wz.Outcome{Kind: wz.KOther, Detail: "compile: " + err.Error()}
 		return res
 	}
-	s.Host.MaxLog = 0 // unlimited: the log is ground truth here (fuel bounds the number of calls)
+	s.Host.MaxLog, s.Host.Global = 0, gl // unlimited: the logs are ground truth here (fuel bounds the number of calls)
 	in := s.Instantiate(lctx, nil)
 	cut := func() {
 		res.perCal = append(res.perCal, rec.ev)
 		rec.ev = nil
-		var en []uint32
-		var hl []string
-		if in.Mod != nil {
-			en = append(en, s.Host.EnteredOf(in.Mod)...)
-			hl = append(hl, s.Host.LogOf(in.Mod)...)
-		}
-		res.enter = append(res.enter, en)
-		res.hostlg = append(res.hostlg, hl)
+		res.enter = append(res.enter, append([]string{}, gl.Entered...))
+		res.hostlg = append(res.hostlg, append([]string{}, gl.Calls...))
 	}
 	cut()
 	for _, call := range c.Script {
+		if inLib != nil {
+			inLib.ResetFuel(c.Fuel)
+		}
 		in.Call(lctx, call, c.Fuel)
 		cut()
 	}
@@ -274,7 +300,7 @@ func checkStream(ev []Event, failed bool, all bool) string {
 }
 
 // groundTruth compares the events with the enter() reports and the host log deltas.
-func groundTruth(c *Case, ev []Event, enter []uint32, hostlog []string, listened func(uint32) bool, allHost bool) string {
+func groundTruth(c *Case, ev []Event, enter []string, hostlog []string, listened func(string) bool, allHost bool) string {
 	var gotW []string
 	var gotH []string
 	var pendingH []Event
@@ -306,7 +332,7 @@ func groundTruth(c *Case, ev []Event, enter []uint32, hostlog []string, listened
 	var wantW []string
 	for _, f := range enter {
 		if listened(f) {
-			wantW = append(wantW, fmt.Sprintf(".%d", f))
+			wantW = append(wantW, f)
 		}
 	}
 	// a function whose fuel check trapped before reaching the hook produces a Before without
@@ -332,12 +358,11 @@ func groundTruth(c *Case, ev []Event, enter []uint32, hostlog []string, listened
 	return ""
 }
 
-func delta32(all [][]uint32, i int) []uint32 { return all[i][len(all[i-1]):] }
-func deltaS(all [][]string, i int) []string  { return all[i][len(all[i-1]):] }
+func deltaS(all [][]string, i int) []string { return all[i][len(all[i-1]):] }
 
 // RunCase returns a violation message, labels, non-triviality.
 func RunCase(c *Case) (string, []string, bool) {
-	listened := func(f uint32) bool {
+	listenedIdx := func(f uint32) bool {
 		if c.Subset == nil {
 			return true
 		}
@@ -348,6 +373,14 @@ func RunCase(c *Case) (string, []string, bool) {
 		}
 		return false
 	}
+	listened := func(id string) bool { // "<module>.<index>"
+		if c.Subset == nil || strings.HasPrefix(id, "lib.") {
+			return true
+		}
+		var f uint32
+		fmt.Sscanf(id, ".%d", &f)
+		return listenedIdx(f)
+	}
 	all := c.Subset == nil
 	var labels []string
 	maxDepth := 0
@@ -356,6 +389,9 @@ func RunCase(c *Case) (string, []string, bool) {
 	for ei, eng := range wz.Engines {
 		r := run(eng, c, true)
 		results[ei] = r
+		if r.tr.Inst.Kind == "lib-failed" {
+			return "", []string{"discarded-lib-start-failed"}, false
+		}
 		if r.tr.Inst.Kind == wz.KOther {
 			return "valid-by-construction module rejected: " + r.tr.Inst.Detail, nil, false
 		}
@@ -379,12 +415,11 @@ func RunCase(c *Case) (string, []string, bool) {
 			if msg := checkStream(ev, failed, all); msg != "" {
 				return fmt.Sprintf("%s, call #%d: %s", eng, i, msg), nil, false
 			}
-			var en []uint32
-			var hl []string
+			var en, hl []string
 			if i == 0 {
 				en, hl = r.enter[0], r.hostlg[0]
 			} else {
-				en, hl = delta32(r.enter, i), deltaS(r.hostlg, i)
+				en, hl = deltaS(r.enter, i), deltaS(r.hostlg, i)
 			}
 			if r.tr.Inst.Kind == wz.KOK || i > 0 {
 				if msg := groundTruth(c, ev, en, hl, listened, all); msg != "" {
@@ -392,7 +427,7 @@ func RunCase(c *Case) (string, []string, bool) {
 				}
 			}
 			// outermost params/results
-			if i > 0 && len(ev) > 0 && listenedExport(c, c.Script[i-1].Fn, listened) {
+			if i > 0 && len(ev) > 0 && listenedExport(c, c.Script[i-1].Fn, listenedIdx) {
 				want := maskSig(c, c.Script[i-1].Fn, true, c.Script[i-1].Args)
 				if ev[0].Kind != 'B' || fmt.Sprint(ev[0].Vals) != fmt.Sprint(want) {
 					return fmt.Sprintf("%s, call #%d: first event %s does not carry the arguments passed %x", eng, i, ev[0], want), nil, false
@@ -452,6 +487,9 @@ func RunCase(c *Case) (string, []string, bool) {
 	}
 	if !all {
 		labels = append(labels, "subset-listener")
+	}
+	if c.Lib != nil {
+		labels = append(labels, "cross-module-calls")
 	}
 	if c.Module.Start >= 0 {
 		labels = append(labels, "start-function")
@@ -519,8 +557,18 @@ func prop(t *rapid.T) {
 	cfg.Enter = true
 	cfg.CallRich = true
 	cfg.FuelInit = 16 * 24 // at most 24 nested frames (the stack iterator / abort cap of 30 is a known finding)
+	var lib *wasmgen.Module
+	if rapid.IntRange(0, 2).Draw(t, "withlib") == 0 {
+		lcfg := cfg
+		lcfg.HostModule = "env2"
+		lcfg.ModuleName = "lib"
+		lcfg.MaxFuncs = rapid.IntRange(1, 6).Draw(t, "libfuncs")
+		lcfg.AllowStart = false
+		lib = wasmgen.Generate(t, lcfg)
+		cfg.Lib, cfg.LibName = lib, "lib"
+	}
 	m := wasmgen.Generate(t, cfg)
-	c := &Case{Module: m, Fuel: cfg.FuelInit}
+	c := &Case{Module: m, Lib: lib, Fuel: cfg.FuelInit}
 	ex := m.Exports()
 	n := rapid.IntRange(1, 5).Draw(t, "ncalls")
 	for i := 0; i < n; i++ {
